@@ -19,7 +19,7 @@ EXTENDS DFECache, TLC
 CONSTANTS MaxW, MaxJ, MaxSplit, MaxPieces, AllowDie, PathSet
 
 VARIABLES st,      \* the protocol state (DFECache!InitState ...)
-          path,    \* SpecPaths only: the sequence of actors that moved
+          path,    \* SpecPaths only: the actors that moved, as a string of digits (<<>> in Spec)
           mg       \* merge case: <<nj, split, sequence of <<id, altered>> >>, or <<>> in protocol states
 vars == <<st, path, mg>>
 
@@ -94,18 +94,24 @@ Termination == <>(mg # <<>> \/ Terminated(st))
 \* PathSet selects the configurations: 1 -> 2 workers x 3 jobs, every fail set (1-D cache);
 \*                                     2 -> 2 workers, 9 jobs in 3 split pieces of 3 (2-D cache), chosen fail sets
 \*                                     3 -> 3 workers x 4 jobs (simulation only)
+\*                                     4 -> 1-2 workers x 2 jobs, every fail set;  5 -> as 1 with three fail sets (quick tier)
 PC(nw, nj, sp, th, fl) == [nw |-> nw, nj |-> nj, cap |-> nw, split |-> sp, this |-> th, fail |-> fl, die |-> FALSE]
 PathConfigs ==
    CASE PathSet = 1 -> {PC(2, 3, 1, 0, fl) : fl \in SUBSET (0..2)}
      [] PathSet = 2 -> {PC(2, 9, 3, th, fl) : th \in 0..2, fl \in {{}, {4}, {0, 8}}}
      [] PathSet = 3 -> {PC(3, 4, 1, 0, fl) : fl \in SUBSET (0..3)} \cup {PC(3, 9, 3, th, fl) : th \in 0..2, fl \in {{}, {3}, {2, 7}}}
+     [] PathSet = 5 -> {PC(2, 3, 1, 0, fl) : fl \in {{}, {1}, {0, 2}}}
      [] PathSet = 4 -> {PC(1, 2, 1, 0, fl) : fl \in SUBSET (0..1)} \cup {PC(2, 2, 1, 0, fl) : fl \in SUBSET (0..1)}
      [] OTHER -> {}
-InitPaths == st \in {InitState(c) : c \in PathConfigs} /\ path = <<>> /\ mg = <<>>
-NextPaths == \E a \in 0..3 : En(st, a) /\ st' = Apply(st, a) /\ path' = Append(path, a) /\ UNCHANGED mg
+InitPaths == st \in {InitState(c) : c \in PathConfigs} /\ path = "" /\ mg = <<>>
+NextPaths == \E a \in 0..3 : En(st, a) /\ st' = Apply(st, a) /\ path' = path \o ToString(a) /\ UNCHANGED mg
 SpecPaths == InitPaths /\ [][NextPaths]_vars
+\* the schedule is kept as a string of actor digits, the fail set as a string of job digits (compact output)
+RECURSIVE DigitsOf(_)
+DigitsOf(S) == IF S = {} THEN "" ELSE LET m == CHOOSE x \in S : \A y \in S : x <= y IN ToString(m) \o DigitsOf(S \ {m})
+FailStr(c) == "f" \o DigitsOf(c.fail)
 EmitPath  == Terminated(st) =>
-                PrintT(<<"PATH", st.c.nw, st.c.nj, st.c.split, st.c.this, st.c.fail, path>>)
+                PrintT(<<"PATH", st.c.nw, st.c.nj, st.c.split, st.c.this, FailStr(st.c), path>>)
 \* every path ends terminated: a maximal path that is not terminated would be a deadlock
 PathsEnd  == (\A a \in 0..3 : ~En(st, a)) => Terminated(st)
 =============================================================================
